@@ -270,6 +270,8 @@ theorem buildSelections_ok {st : Store} (hp : Pristine st) (fuel : Nat) :
     simp only [buildSelections, h1, h2]
     exact ⟨_, _, rfl⟩
 
+/-- … and `_combine_variables` (whose `get_formatted_variables` recurses through the whole tree since
+    dfbc7ef) gets by with the fuel `to_ast` got by with -/
 theorem execOp_ok {st : Store} (hp : Pristine st) (ty nm : String) (nodes : List Node)
     (hr : RefsOKList st nodes = true) : ∃ d, execOp ty nm st nodes = .ok (d, st) := by
   have hh : heightList nodes ≤ opFuel st nodes := by
@@ -277,7 +279,8 @@ theorem execOp_ok {st : Store} (hp : Pristine st) (ty nm : String) (nodes : List
     unfold opFuel
     omega
   obtain ⟨sels, ns', h⟩ := buildSelections_ok hp (opFuel st nodes) nodes 0 hr hh
-  simp only [execOp, h]
+  obtain ⟨-, -, g, -⟩ := buildSelections_Q hp _ _ _ _ _ _ h
+  simp only [execOp, h, combine_pure g]
   exact ⟨_, rfl⟩
 
 /-! ### an accepted expression evaluates -/
